@@ -520,6 +520,7 @@ structure Tight where
   ps : List (Nat × Nat)
   hdr : Bytes
   content : Bytes
+  lay : List (Bytes × Bytes) := []      -- the white-space runs of the header (for re-encoding it with other numbers)
 
 /-- members laid out touching each other where the syntax allows it (`sepAlways`: one white-space byte between any two),
     under the minimal header; `wsSel` < 6: every separator is that white-space byte, else they vary with the position -/
@@ -534,7 +535,7 @@ def mkTight (ms : List (Bytes × Obj)) (ids : List Nat) (sepAlways : Bool) (wsSe
   let lay : List (Bytes × Bytes) := (List.range ms.length).map fun k =>
     ((if k == 0 then [] else [wsAt (2 * k - 1)]), [wsAt (2 * k)])
   let hdr := encodeHeader (mkHeader ps lay)
-  ⟨⟨es, ms.map (fun _ => 0), ms.map (·.2), ms.foldl (fun a m => Nat.max a (depth m.2)) 1⟩, ps, hdr, content⟩
+  ⟨⟨es, ms.map (fun _ => 0), ms.map (·.2), ms.foldl (fun a m => Nat.max a (depth m.2)) 1⟩, ps, hdr, content, lay⟩
 
 /-- the case lines of one minimal-layout stream.  `nbr`: which neighbours go with it (bit 0: /First one less, bit 1: one
     white-space byte of padding and /First one more, bit 2: /First one more over the same data); `filt`: also behind a
@@ -641,6 +642,302 @@ def genTight (seed : Nat) (tier : String) (emit : String → IO Unit) : IO Unit 
       r := r2
       let ms := seqOf short 8 k ++ seqOf short (n - 8) k2
       for l in tightLines seed idx (mkTight ms (tightIds n idx) false (idx % 8)) (nbrOf idx) (idx % 2 == 0) do emit l
+
+/-! ### boundary values of the four kinds of numbers an object stream declares  (after missed seed C14_8)
+
+ /N, /First, a header identifier, a header offset - each replaced, on an otherwise well-formed stream, by every value
+ of ONE boundary set around its exact value `e`:
+
+   0  1  e-1  e  e+1  2e  255  256  65535  65536  2^31-1  2^31  2^32-1  2^32  2^32+1  2^53  2^59-1  2^59  10^18  2^62
+   2^63-1 (the largest integer the syntax of the crate holds)  |  2^63, 2^64 (overflowing)  |  -1  -e  -(2^63-1)
+   |  an object that is not an integer: null  e.0  (e)  /e  true  [e]  e 0 R  |  absent
+
+ What the statement says about each (decided here, on the spec side, from the layout the encoder produced):
+   /N      e: the members.  1 <= v < e: the first v members (the rest of the header is padding before /First).
+           0, v > e (the header holds fewer than /N pairs; no padding of the generator holds a number), negative,
+           overflowing, not an integer, absent: rejected.
+   /First  e: the members.  v >= |data|: rejected.  v not beyond the first digit of the last offset (the header view then
+           holds fewer than 2N integers; v = 0), negative, overflowing, not an integer, absent: rejected.  Otherwise (the
+           content starts somewhere else) correspondence only.
+   id      any v <= 2^63-1 that is fresh: the same members under the new identifier (the header is laid out again, /First
+           follows).  One that repeats another member's / a predefined identifier, negative, overflowing, not an integer,
+           absent (the header then holds 2N-1 integers): rejected.
+   offset  v not above the previous offset, not below the next one, at or beyond the end of the content, negative,
+           overflowing, not an integer, absent: rejected; another position inside the content: correspondence only.
+   (`e 0 R` / `e.0` in the LAST pair leave a complete header followed by junk: correspondence only.)
+ Never a panic, never an abort (the judge calls `panic ...` / `crash:<rc>` bad for every kind of case): in particular no
+ allocation may be sized by /N before the pairs have been read.
+ Class words: bnd-N, bnd-First, bnd-id, bnd-ofs (+ -flate / -chain<k> when the stream lies behind a filter option).
+ Bases: minimal-layout ("tight") headers and random ("slack") layouts with padding before /First; each base plain and
+ behind one filter option in rotation (Flate stored block / systematic chain / chain of C06's randChain / Flate + predictor).
+
+ ZLIB HEADERS (after missed seed C06_8, which let FlateDecode accept only CMF = 0x78): RFC 1950 allows CM = 8 with
+ CINFO = 0..7 (window 256 bytes .. 32 KiB), any FLEVEL 0..3, FDICT = 0, FCHECK making CMF*256 + FLG a multiple of 31.
+ The two header bytes of a zlib stream written by the spec-side encoders are replaced by each of these 32 pairs (the
+ DEFLATE data and the Adler-32 trailer do not depend on the header; a stream with matches keeps its header unless the
+ window covers the whole input of the layer): class zhdr, expected: the same members.  CINFO = 8, 15 and FDICT = 1
+ with a correct FCHECK: rejected. -/
+
+inductive BTok where
+  | nat (v : Nat)
+  | neg (v : Nat)
+  | junk (t v : Nat)
+  | over (v : Nat)
+  | absent
+
+def BTok.text : BTok → String
+  | .nat v => toString v
+  | .neg v => s!"-{v}"
+  | .junk t v => junkText t v
+  | .over v => toString v
+  | .absent => ""
+
+def bndNats (e : Nat) : List Nat :=
+  ([0, 1, e - 1, e, e + 1, 2 * e, 255, 256, 65535, 65536, 2 ^ 31 - 1, 2 ^ 31, 2 ^ 32 - 1, 2 ^ 32, 2 ^ 32 + 1, 2 ^ 53,
+    2 ^ 59 - 1, 2 ^ 59, 10 ^ 18, 2 ^ 62, 2 ^ 63 - 1] : List Nat).eraseDups
+
+def bndToks (e : Nat) : List BTok :=
+  -- (around an identifier 2^63-1 the neighbours e+1, 2e overflow as well)
+  (bndNats e).map (fun v => if v < 2 ^ 63 then .nat v else .over v) ++ [.over (2 ^ 63), .over (2 ^ 64), .neg 1] ++ (if e > 1 then [.neg e] else []) ++ [.neg (2 ^ 63 - 1)] ++
+  (List.range 7).map (fun t => .junk t e) ++ [.absent]
+
+inductive BExp where
+  | rt (want : String)
+  | rej
+  | mut
+
+/-- a well-formed stream in the generator's terms -/
+structure BBase where
+  b : Built
+  ps : List (Nat × Nat)
+  lay : List (Bytes × Bytes)
+  pad : Bytes
+  content : Bytes          -- with the junk after the last member
+  pre : List ObjId
+  maxd : Nat
+
+def BBase.hdr (s : BBase) : Bytes := encodeHeader (mkHeader s.ps s.lay) ++ s.pad
+def BBase.data (s : BBase) : Bytes := s.hdr ++ s.content
+
+/-- the header with the identifier / the offset of pair `k` written as the given token -/
+def hdrWith (s : BBase) (k : Nat) (idT ofsT : Option Bytes) : Bytes :=
+  (((mkHeader s.ps s.lay).zipIdx).map fun (e, j) =>
+    e.pre ++ (if j == k then idT.getD (natDigits e.id) else natDigits e.id) ++ e.mid ++
+      (if j == k then ofsT.getD (natDigits e.ofs) else natDigits e.ofs)).flatten ++ s.pad
+
+def Built.first (b : Built) (k : Nat) : Built :=
+  { b with entries := b.entries.take k, leads := b.leads.take k, vals := b.vals.take k }
+
+/-- how the data reach the parser: as they are, or behind a filter option: data ↦ (/Filter text, view, dechex) -/
+structure BWrap where
+  tag : String
+  cur : Nat
+  run : Bytes → String × Bytes × String
+
+def wrapPlain : BWrap := ⟨"", 0, fun d => ("", d, "=")⟩
+
+def bndDict (sel : Nat) (nT fT filt : String) : Bytes :=
+  let n := if nT.isEmpty then "" else s!" /N {nT}"
+  let f := if fT.isEmpty then "" else s!" /First {fT}"
+  bs (match sel % 3 with
+    | 0 => s!"<</Type /ObjStm{n}{f}{filt}>>"
+    | 1 => s!"<<{f}{n} /Type/ObjStm{filt} >>"
+    | _ => s!"<</Length 99/Type /ObjStm{f}{n}{filt}>>")
+
+def bndLine (w : BWrap) (sel : Nat) (cls : String) (s : BBase) (nT fT : String) (data : Bytes) (e : BExp) : String :=
+  let (filt, view, dech) := w.run data
+  let (kind, want) := match e with
+    | .rt wt => ("rt", " => " ++ wt)
+    | .rej => ("rej", "")
+    | .mut => ("mut", "")
+  s!"{kind} {cls}{w.tag} {s.maxd} {w.cur} {predefStr s.pre} {hexOfBytes (bndDict sel nT fT filt)} {hexOfBytes view} {dech}{want}"
+
+/-- /N over the boundary set -/
+def bndN (s : BBase) (w : BWrap) (sel : Nat) : List String :=
+  let n := s.ps.length
+  (bndToks n).map fun t =>
+    let e : BExp := match t with
+      | .nat v => if v == 0 || v > n then .rej else .rt (memberWant (s.b.first v) s.ps s.pre w.cur)
+      | _ => .rej
+    bndLine w sel "bnd-N" s t.text (toString s.hdr.length) s.data e
+
+/-- /First over the boundary set -/
+def bndFirst (s : BBase) (w : BWrap) (sel : Nat) : List String :=
+  let first := s.hdr.length
+  let data := s.data
+  let pairs := encodeHeader (mkHeader s.ps s.lay)
+  -- where the digits of the last offset begin
+  let p := pairs.length - (natDigits ((s.ps.getLast?.map (·.2)).getD 0)).length
+  (bndToks first).map fun t =>
+    let e : BExp := match t with
+      | .nat v => if v == first then .rt (memberWant s.b s.ps s.pre w.cur)
+                  else if v ≥ data.length || v ≤ p then .rej else .mut
+      | _ => .rej
+    bndLine w sel "bnd-First" s (toString s.ps.length) t.text data e
+
+/-- the identifier of pair `k` over the boundary set -/
+def bndId (s : BBase) (w : BWrap) (sel k : Nat) : List String :=
+  let n := s.ps.length
+  let es := s.b.entries
+  let idk := (es[k]?.map (·.id)).getD 0
+  let others := ((es.zipIdx).filter fun (_, j) => j != k).map fun (e, _) => e.id
+  (bndToks idk).filterMap fun t =>
+    let e : Option BExp := match t with
+      | .nat v =>
+        if v == idk then none
+        else if others.contains v || s.pre.contains (v, 0) then some .rej
+        else
+          let es' := setNth es k { (es[k]?.getD ⟨0, [], []⟩) with id := v }
+          let ps' := setNth s.ps k (v, (s.ps[k]?.map (·.2)).getD 0)
+          some (.rt (memberWant { s.b with entries := es' } ps' s.pre w.cur))
+      | .junk jt _ => some (if jt % 7 == 6 && n == 1 then .mut else .rej)
+      | _ => some .rej
+    e.map fun e =>
+      let h := hdrWith s k (some (bs t.text)) none
+      bndLine w sel "bnd-id" s (toString n) (toString h.length) (h ++ s.content) e
+
+/-- the offset of pair `k` over the boundary set -/
+def bndOfs (s : BBase) (w : BWrap) (sel k : Nat) : List String :=
+  let n := s.ps.length
+  let ofk := (s.ps[k]?.map (·.2)).getD 0
+  let prev := (s.ps[k - 1]?.map (·.2)).getD 0
+  let next := (s.ps[k + 1]?.map (·.2)).getD 0
+  (bndToks ofk).filterMap fun t =>
+    let e : Option BExp := match t with
+      | .nat v =>
+        if v == ofk then none
+        else if (k > 0 && v ≤ prev) || (k + 1 < n && v ≥ next) || v ≥ s.content.length then some .rej
+        else some .mut
+      | .junk jt _ => some (if k + 1 == n && (jt % 7 == 1 || jt % 7 == 6) then .mut else .rej)
+      | _ => some .rej
+    e.map fun e =>
+      let h := hdrWith s k none (some (bs t.text))
+      bndLine w sel "bnd-ofs" s (toString n) (toString h.length) (h ++ s.content) e
+
+/-- a legal zlib header: CM = 8, the given CINFO and FLEVEL, FDICT = 0, FCHECK as RFC 1950 2.2 wants it -/
+def zhdrPair (cinfo flevel : Nat) (fdict : Nat := 0) : UInt8 × UInt8 :=
+  let cmf := cinfo * 16 + 8
+  let flg0 := flevel * 64 + fdict * 32
+  let rem := (cmf * 256 + flg0) % 31
+  (UInt8.ofNat cmf, UInt8.ofNat (flg0 + (if rem == 0 then 0 else 31 - rem)))
+
+def reheader (h : UInt8 × UInt8) (z : Bytes) : Bytes :=
+  match z with
+  | _ :: _ :: t => h.1 :: h.2 :: t
+  | _ => z
+
+/-- `encodeChain` with the header of every Flate layer replaced by `h`; a layer whose DEFLATE data hold matches (encoder
+    modes 2, 3) keeps its header unless a window of `win` bytes covers the layer's whole input -/
+def encodeChainZ (h : UInt8 × UInt8) (win : Nat) : List FTemplate → Bytes → Bytes × List FLayer
+  | [], x => (x, [])
+  | t :: rest, x =>
+    let (inner, ls) := encodeChainZ h win rest x
+    let l := t.resolve inner.length
+    let e := l.encode inner
+    let fits := l.base.a ≤ 1 || win ≥ (if l.pred.isSome then 2 * inner.length + 1 else inner.length)
+    ((if l.base.kind == 'F' && fits then reheader h e else e), l :: ls)
+
+def zhdrLines (s : BBase) (idx : Nat) : List String :=
+  let n := s.ps.length
+  let data := s.data
+  let junk : Bytes := match idx % 3 with | 0 => [] | 1 => bs "JUNK" | _ => bs "<</N 1>>stream\n"
+  let want := memberWant s.b s.ps s.pre junk.length
+  let fl (a : Nat) : FTemplate := ⟨⟨'F', a, idx % 50, 0, 0⟩, none, 15⟩
+  let line (kind : String) (ts : List FTemplate) (h : UInt8 × UInt8) (win sel : Nat) : String :=
+    let (enc, ls) := encodeChainZ h win ts data
+    let d := bndDict sel (toString n) (toString s.hdr.length) (filterText ls sel)
+    s!"{kind} zhdr {s.maxd} {junk.length} {predefStr s.pre} {hexOfBytes d} {hexOfBytes (junk ++ enc)} {hexOfBytes data}" ++
+      (if kind == "rt" then s!" => {want}" else "")
+  -- one Flate layer (stored / fixed-Huffman literals / fixed-Huffman with matches, by the case number): all 32 headers
+  let one := (List.range 32).map fun i => line "rt" [fl (idx % 4)] (zhdrPair (i / 4) (i % 4)) (2 ^ (i / 4 + 8)) (idx + i)
+  -- the Flate layer inside a chain / with a predictor: every window size, FLEVEL in rotation
+  let hex : FTemplate := ⟨⟨'H', 3, 2, 1, 0⟩, none, 15⟩
+  let a85 : FTemplate := ⟨⟨'A', 5, 2, 0, 0⟩, none, 15⟩
+  let pr := ([2, 10, 11, 12, 13, 14] : List Nat)[idx / 4 % 6]?.getD 12
+  let ts : List FTemplate := match idx % 5 with
+    | 0 => [hex, fl 0]
+    | 1 => [a85, fl 1]
+    | 2 => [fl 1, fl 0]
+    | 3 => [fl (idx / 5 % 2), hex]
+    | _ => [⟨⟨'F', idx / 5 % 2, idx % 50, 0, 0⟩, some (pr, idx / 7, idx / 3), idx % 16⟩]
+  let more := (List.range 8).map fun c => line "rt" ts (zhdrPair c ((c + idx) % 4)) (2 ^ (c + 8)) (idx + c)
+  -- not zlib headers, although the check value is right
+  let bad := [zhdrPair 8 (idx % 4), zhdrPair 15 (idx % 4), zhdrPair (idx % 8) (idx % 4) 1].map fun h => line "rej" [fl (idx % 2)] h 0 idx
+  one ++ more ++ bad
+
+/-- the bases of the two families: minimal-layout streams and random layouts with padding before /First -/
+def bndBases (seed : Nat) (thorough : Bool) : List BBase := Id.run do
+  let mut out : List BBase := []
+  -- tight: N = 1, 2, 3, 7 with single digits, 12 with two-digit numbers
+  let short := tightPool.filter (·.1.length ≤ 2)
+  let reps := if thorough then 12 else 2
+  let mut r := Rng.mk' (seed * 7919 + 14008)
+  for rep in List.range reps do
+    for n in [1, 2, 3, 7, 12] do
+      let (k, r1) := r.nat (tightPool.length ^ 3)
+      let (k2, r2) := r1.nat (short.length ^ 9)
+      r := r2
+      let ms := if n ≤ 3 then seqOf tightPool n k
+                else if n == 7 then (List.range 7).map fun p => if p % 2 == 0 then (bs "1", Obj.int 1) else short[(k2 / 4 ^ p) % short.length]?.getD (bs "[]", .arr [])
+                else seqOf short n k2
+      let t := mkTight ms (tightIds n (k + rep)) (n == 12 && rep % 2 == 1) ((k + rep) % 8)
+      let trail : Bytes := match (k + rep) % 3 with | 0 => [] | 1 => [10] | _ => bs " x"
+      let pre : List ObjId := if rep % 2 == 1 then [(5000 + k % 50, 0), ((t.ps.head?.map (·.1)).getD 1, 1)] else []
+      out := out ++ [⟨t.b, t.ps, t.lay, [], t.content ++ trail, pre, t.b.maxd + rep % 2⟩]
+  -- slack: the random streams of the main generator
+  for i in List.range (if thorough then 150 else 14) do
+    let (nobj, r1) := r.nat 6
+    let nobj := nobj + 1
+    let (gapStyle, r2) := r1.nat 4
+    let (b, r3) := rndMembers r2 nobj gapStyle
+    let (plain, r4) := r3.nat 3
+    let (ws, r5) := rndLayout r4 nobj (plain == 0)
+    let pad : Bytes := match i % 5 with | 0 => [32] | 1 => [10] | 2 => bs " x y\n" | 3 => bs "\n%pad\n " | _ => List.replicate 9 0
+    let (trail, r6) := rndJunk r5
+    let (x, r7) := r6.nat 50
+    r := r7
+    let (content, ps) := layoutContent b.entries 0
+    let pre : List ObjId := match i % 3 with
+      | 0 => []
+      | 1 => [(5000 + x, 0)]
+      | _ => [((b.entries[x % nobj]?.map (·.id)).getD 1, 1), (5000 + x, 0)]
+    out := out ++ [⟨b, ps, ws, pad, content ++ trail, pre, b.maxd + i % 3⟩]
+  return out
+
+/-- filter option number `j` -/
+def bndWrap (r : Rng) (j : Nat) : BWrap :=
+  let junk : Bytes := match j % 3 with | 0 => [] | 1 => bs "JUNK" | _ => bs "<</N 1>>stream\n"
+  let chain (ts : List FTemplate) (sel eol : Nat) : BWrap :=
+    ⟨s!"-chain{ts.length}", junk.length, fun d =>
+      let (enc, ls) := encodeChain 0 0 0 ts 1 d
+      (filterText ls sel, junk ++ enc ++ C06.eolBytes eol, hexOfBytes d)⟩
+  match j % 4 with
+  | 0 =>
+    let filt := match j / 4 % 3 with | 0 => " /Filter /FlateDecode" | 1 => " /Filter [/FlateDecode]" | _ => " /Filter [/FlateDecode] /DecodeParms [null]"
+    ⟨"-flate", junk.length, fun d => (filt, junk ++ zlibStored d, hexOfBytes d)⟩
+  | 1 => let (ts, r) := rndTemplates r (2 * (j / 4)); let (sel, _) := r.nat 6; chain ts sel (j / 4 % 4)
+  | 2 => let (ts, r) := rndTemplates r (2 * j + 1); let (sel, _) := r.nat 6; chain ts sel (j / 4 % 4)
+  | _ =>
+    let pr := ([2, 10, 11, 12, 13, 14] : List Nat)[j / 4 % 6]?.getD 12
+    let (mask, r) := r.nat 16
+    let (mode, _) := r.nat 4
+    chain [⟨⟨'F', mode, j % 50, 0, 0⟩, some (pr, j / 24 + j % 7, ([1, 4, 2, 1, 0, 3] : List Nat)[j / 4 % 6]?.getD 1), mask⟩] j 0
+
+def genBnd (seed : Nat) (tier : String) (emit : String → IO Unit) : IO Unit := do
+  let thorough := tier == "thorough"
+  let mut j := seed % 1013
+  for s in bndBases seed thorough do
+    j := j + 1
+    let n := s.ps.length
+    -- as it is: all four kinds of numbers, the first and the last pair
+    for l in bndN s wrapPlain j ++ bndFirst s wrapPlain (j + 1) do emit l
+    for k in (if n == 1 then [0] else [0, n - 1]) do
+      for l in bndId s wrapPlain (j + k) k ++ bndOfs s wrapPlain (j + k + 1) k do emit l
+    -- behind a filter option: /N and /First (the decoded data decide), the last pair
+    let w := bndWrap (Rng.mk' (seed * 31337 + j)) j
+    for l in bndN s w (j + 2) ++ bndFirst s w j ++ bndId s w (j + 1) (n - 1) ++ bndOfs s w j (n - 1) do emit l
+    -- Flate layers under every legal zlib header
+    for l in zhdrLines s j do emit l
 
 /-! ### every case once more on a restricted view
 
@@ -995,6 +1292,9 @@ def gen (seed n : Nat) (tier : String) (emit0 : String → IO Unit) : IO Unit :=
       let ps' := if x % 2 == 0 then setNth ps pos ((ps[pos]?.map (·.1)).getD 0, v) else setNth ps pos (v, (ps[pos]?.map (·.2)).getD 0)
       let (d, dat) := withHdr ps' nobj
       emit (line "mut" "hdr" maxd pre d dat "")
+  -- boundary values of /N, /First, identifiers, offsets; zlib headers (last: on a tree that aborts on them the harness is
+  -- restarted behind each such case)
+  genBnd seed tier emit
 
 /-- non-trivial: at least two members, or a corruption/flate/filter-chain/minimal-layout case; exhaustive cases count when both
     offsets lie inside the content -/
@@ -1003,9 +1303,10 @@ def nontrivialPlain (line : String) : Bool :=
   | none => false
   | some c =>
     match c.kind with
-    | "rt" => (c.want.splitOn "] [").length ≥ 2 || c.cls == "flate" || c.cls.startsWith "chain" || c.cls.startsWith "tight"
+    | "rt" => (c.want.splitOn "] [").length ≥ 2 || c.cls == "flate" || c.cls.startsWith "chain" || c.cls.startsWith "tight" ||
+              c.cls.startsWith "bnd" || c.cls.startsWith "zhdr"
     | "ex" => match exParts c with | some (ct, a, b) => a < ct.length && b < ct.length && a != b | none => false
-    | _ => c.view.length ≥ 12
+    | _ => c.view.length ≥ 12 || c.cls.startsWith "bnd" || c.cls.startsWith "zhdr"
 
 /-- a case on a view is non-trivial when the case is and the window is a proper part of the allocation -/
 def nontrivial (line : String) : Bool :=
